@@ -185,7 +185,7 @@ def replay(check, path):
     return 0
 
 
-def run(check_factory, prop, tier, runs, nworkers=None, wall_cap=None, hang_cap=900, extra_evidence=None):
+def run(check_factory, prop, tier, runs, nworkers=None, wall_cap=None, hang_cap=900, extra_evidence=None, finalize=None):
     """Run `runs` seeded runs over a fork pool; write evidence; print verdict; return exit code."""
     t_start = time.time()
     seed = rng.base_seed()
@@ -225,6 +225,17 @@ def run(check_factory, prop, tier, runs, nworkers=None, wall_cap=None, hang_cap=
         except BaseException as e:  # noqa: BLE001
             errors.append("pool: %r" % (e,))
     results.sort(key=lambda r: r["run"])
+    if finalize is not None:
+        # side computations started by the check before the pool (e.g. model validation in subprocesses):
+        # returns (extra evidence, extra result records in the same shape as worker results, errors)
+        try:
+            fe, fr, ferr = finalize()
+            extra_evidence = dict(extra_evidence or {})
+            extra_evidence.update(fe or {})
+            results.extend(fr or [])
+            errors.extend(ferr or [])
+        except Exception:  # noqa: BLE001
+            errors.append("finalize: " + traceback.format_exc())
 
     findings = load_known_findings(prop)
     known_hits = {}
